@@ -239,6 +239,14 @@ Proof.
 Qed.
 Print Assumptions C01_for_premises_hold_for_modelled_library.
 
+(* ... and for the combined library the check runs (LibCore + arraySort with callbacks + lifted LibSeq) *)
+Theorem C01_for_premises_hold_for_combined_library : forall cfg,
+  lib_fuel_monotone (libfull cfg) /\ lib_count_blind (libfull cfg) /\ arrayLength_contract (libfull cfg) /\ arrayGet_contract (libfull cfg).
+Proof.
+  intros cfg. split; [exact (libfull_fuel_monotone cfg)|split; [exact (libfull_count_blind cfg)|split; [exact (libfull_arrayLength cfg)|exact (libfull_arrayGet cfg)]]].
+Qed.
+Print Assumptions C01_for_premises_hold_for_combined_library.
+
 Theorem C01_for_reserved_names_ok : forall n, names_okb (lbl L_Values n) (lbl L_Length n) (for_index n None) = true.
 Proof. exact reserved_names_ok. Qed.
 Print Assumptions C01_for_reserved_names_ok.
